@@ -246,6 +246,26 @@ pub fn minimise(orig: &RunSpec, orig_budgets: &[Budget], v0: &Violation) -> Mini
                     progress |= attempt!(c);
                 }
             }
+            // shorter interval: fewer events to read in the replay
+            {
+                let cfg = cur.instances[i].config();
+                if let (Some(st), Some(en)) = (cfg.start, cfg.end) {
+                    for len in [0.05, 0.2, 0.5] {
+                        if en - st > len {
+                            let mut c = cur.clone();
+                            for op in c.instances[i].ops.iter_mut() {
+                                if let BOp::End(_) = op {
+                                    *op = BOp::End(st + len);
+                                }
+                            }
+                            if attempt!(c) {
+                                progress = true;
+                                break;
+                            }
+                        }
+                    }
+                }
+            }
             // smallest failing call number (after the workload has been simplified)
             if let Some(k) = cur.instances[i].plan.first() {
                 let mk = |plan: &FaultPlan, k2: u64| match plan {
